@@ -57,6 +57,7 @@ package failsafe
 //@ func (*execution).IsCanceledWithResult
 //@   requires execWellFormed(e) && !held(e.mtx)
 //@   ensures [C08.public_observe] result_0 == canceled(e.ctx) && (result_0 ==> result_1 != nil) && (!result_0 ==> result_1 == nil)
+//@   ensures [C08.public_attribution] result_0 && old(cellof(e.canceledResult, *common.PolicyResult)) != nil ==> result_1 == old(cellof(e.canceledResult, *common.PolicyResult))
 //@   modifies canceled(e.ctx), calls(e.ctx.Err)
 
 // Cancel records the result and cancels the context in one critical section -- which needs the cancel function.
@@ -73,6 +74,7 @@ package failsafe
 //@   requires execWellFormed(e) && !held(e.mtx)
 //@   let c := ret(e.ctx.Err, 1) != nil
 //@   ensures [C08.record.cancelled] c ==> result_0 != nil && canceled(e.ctx)
+//@   ensures [C08.record.attribution] c && old(cellof(e.canceledResult, *common.PolicyResult)) != nil ==> result_0 == old(cellof(e.canceledResult, *common.PolicyResult))
 //@   ensures [C17.record.last_result] !c ==> result_0 == nil && (result != nil ==> e.lastResult == result.Result && e.lastError == result.Error)
 //@   modifies e.lastResult, e.lastError, canceled(e.ctx), calls(e.ctx.Err)
 
@@ -80,6 +82,7 @@ package failsafe
 //@   requires execWellFormed(e) && !held(e.mtx)
 //@   requires e.attempts.v >= 1 && e.attempts.v <= 1073741824 && e.retries.v <= 1073741824
 //@   let c := ret(e.ctx.Err, 1) != nil
+//@   ensures [C08.retry.attribution+C15.cancel.reported] c && old(cellof(e.canceledResult, *common.PolicyResult)) != nil ==> result == old(cellof(e.canceledResult, *common.PolicyResult))
 //@   ensures [C08.retry.cancelled] c ==> result != nil && e.attempts.v == old(e.attempts.v) && e.retries.v == old(e.retries.v) && canceled(e.ctx)
 //@   ensures [C17.retry.counts] !c ==> result == nil && e.attempts.v == old(e.attempts.v) + 1 && e.retries.v == old(e.retries.v) + 1 && cellof(e.canceledResult, *common.PolicyResult) == nil
 //@   modifies e.attempts.v, e.retries.v, e.attemptStartTime, *e.canceledResult, canceled(e.ctx), calls(e.ctx.Err)
